@@ -42,6 +42,12 @@ type CarrierPlan struct {
 	Other  int     `json:"other,omitempty"`  // extras with Pres "id": present the ClientID of this session (index)
 }
 
+type ReadStall struct {
+	Dir string `json:"dir"`
+	At  int64  `json:"at"`
+	Ms  int    `json:"ms"`
+}
+
 type SessionPlan struct {
 	Up       int64         `json:"up"`
 	Down     int64         `json:"down"`
@@ -52,6 +58,10 @@ type SessionPlan struct {
 	// and go on so long after the scenario started (the session is silent in
 	// between, e.g. across a planned gap without any carrier).
 	ResumeAfterMs int `json:"resume_after_ms,omitempty"`
+	// ReadStalls: the application that READS the given direction ("down": behind
+	// the client, "up": behind the server) stops reading for Ms once it has read
+	// At bytes, then goes on (Tunnel: ReaderStalls / ReaderResumes).
+	ReadStalls []ReadStall `json:"read_stalls,omitempty"`
 }
 
 type Scenario struct {
@@ -71,6 +81,10 @@ type Scenario struct {
 	IDShape   string `json:"id_shape,omitempty"`
 	ConvEqual bool   `json:"conv_equal,omitempty"`
 	Origin   interface{}   `json:"origin,omitempty"` // the TLC behaviour this was made from (kept for replay files)
+	// C18 (c18addr.go): RemoteAddr() of every accepted connection is read again at later
+	// moments; FloodAfter: so many other ClientIDs attach after the session is up.
+	AddrReads  bool `json:"addr_reads,omitempty"`
+	FloodAfter int  `json:"flood_after,omitempty"`
 }
 
 // Result is what the driver reports for one scenario; the verdict is TLC's.
@@ -100,6 +114,12 @@ type Rig struct {
 	byConv   sync.Map // uint32 -> *session
 	byStream sync.Map // *smux.Stream (net.Conn) -> turbotunnel.ClientID
 	byConn   sync.Map // net.Conn inside the server -> *Link
+	// packet layer: what each end WROTE towards the carrier, by KCP conversation
+	// id (64-bit hashes of whole packets), so that every packet READ at the
+	// other end can be looked up: "every packet read is one that the peer wrote"
+	wroteUp   sync.Map // uint32 -> *pktSet: packets the client's redial layer wrote (ex.write)
+	wroteDown sync.Map // uint32 -> *pktSet: packets the server's handler wrote (srv.out)
+	byPConn   sync.Map // net.PacketConn given to RedialPacketConn.exchange -> *session
 	Orphans  *Recorder
 
 	Stale time.Duration
@@ -110,6 +130,88 @@ type Rig struct {
 // between processes.
 var shapeBase = uint64(time.Now().UnixNano())
 var zeroffMu sync.Mutex
+
+type pktSet struct {
+	mu sync.Mutex
+	m  map[uint64]struct{}
+}
+
+func pktHash(p []byte) uint64 {
+	h := uint64(14695981039346656037)
+	for _, b := range p {
+		h ^= uint64(b)
+		h *= 1099511628211
+	}
+	return h ^ uint64(len(p))<<48
+}
+
+func pktConv(p []byte) (uint32, bool) {
+	if len(p) < 4 {
+		return 0, false
+	}
+	return binary.LittleEndian.Uint32(p), true
+}
+
+func pktAdd(m *sync.Map, p []byte) {
+	c, ok := pktConv(p)
+	if !ok {
+		return
+	}
+	v, _ := m.LoadOrStore(c, &pktSet{m: map[uint64]struct{}{}})
+	ps := v.(*pktSet)
+	h := pktHash(p)
+	ps.mu.Lock()
+	ps.m[h] = struct{}{}
+	ps.mu.Unlock()
+}
+
+func pktKnown(m *sync.Map, p []byte) bool {
+	c, ok := pktConv(p)
+	if !ok {
+		return false
+	}
+	v, found := m.Load(c)
+	if !found {
+		return false
+	}
+	ps := v.(*pktSet)
+	h := pktHash(p)
+	ps.mu.Lock()
+	_, known := ps.m[h]
+	ps.mu.Unlock()
+	return known
+}
+
+// ttHook receives the hook calls of common/turbotunnel: the packets the
+// client's redial layer reads from and writes to its current carrier.
+func (r *Rig) ttHook(point string, args ...interface{}) {
+	switch point {
+	case "ex.write":
+		pktAdd(&r.wroteUp, args[1].([]byte))
+	case "ex.read":
+		p := args[1].([]byte)
+		var ses *session
+		if v, ok := r.byPConn.Load(args[0]); ok {
+			ses = v.(*session)
+		} else if c, ok := pktConv(p); ok {
+			if v, ok := r.byConv.Load(c); ok && v.(*session) != nil {
+				ses = v.(*session)
+				r.byPConn.Store(args[0], ses)
+			}
+		}
+		known := pktKnown(&r.wroteDown, p)
+		if ses == nil {
+			if !known {
+				r.Orphans.Struct("cli.pkt", "why", "a packet nobody wrote was read from a carrier that has not yet carried any known packet", "len", len(p))
+			}
+			return
+		}
+		ses.sc.rec.Run("cli.pkt", fmt.Sprintf("cli.pkt/%d/%v", ses.idx, known), 1, known, "s", ses.idx, "known", known)
+		if !known {
+			atomic.StoreInt32(&ses.failed, 1) // recorded; the scenario has nothing more to show
+		}
+	}
+}
 
 type dummyAddr struct{}
 
@@ -131,6 +233,7 @@ func freePort() (int, error) {
 func NewRig() (*Rig, error) {
 	r := &Rig{Orphans: NewRecorder(), Stale: 600 * time.Millisecond, Bound: 60 * time.Second}
 	sfserver.VerifHook = r.hook
+	turbotunnel.VerifHook = r.ttHook
 	var ln *sfserver.SnowflakeListener
 	var addr *net.TCPAddr
 	for try := 0; ; try++ {
@@ -247,6 +350,9 @@ func (r *Rig) hook(point string, args ...interface{}) {
 		switch point {
 		case "srv.attach", "srv.attached":
 			rec.Struct(point, "k", l.K, "id", name, "addr", addrString(args[2].(net.Addr)))
+			if point == "srv.attached" {
+				r.addrReadAfterAttach(id, rec)
+			}
 		case "srv.detach":
 			rec.Struct(point, "k", l.K, "id", name)
 		case "srv.in", "srv.out":
@@ -255,6 +361,15 @@ func (r *Rig) hook(point string, args ...interface{}) {
 				if atomic.CompareAndSwapInt32(&os.convSet, 0, 1) {
 					os.conv = binary.LittleEndian.Uint32(args[2].([]byte))
 					r.byConv.Store(os.conv, os)
+				}
+			}
+			if point == "srv.out" {
+				pktAdd(&r.wroteDown, args[2].([]byte))
+			} else if _, s2 := r.idName(id, rec); s2 != nil {
+				known := pktKnown(&r.wroteUp, args[2].([]byte))
+				rec.Run("srv.pkt", fmt.Sprintf("srv.pkt/%d/%v", s2.idx, known), 1, known, "s", s2.idx, "known", known)
+				if !known {
+					atomic.StoreInt32(&s2.failed, 1)
 				}
 			}
 			own := r.convOwner(args[2].([]byte), rec)
@@ -322,6 +437,9 @@ func (r *Rig) serveConn(conn net.Conn) {
 	s.streams = append(s.streams, inner)
 	s.cmu.Unlock()
 	n := atomic.AddInt32(&s.accepts, 1)
+	if s.noteAccepted(conn, n) {
+		return // a later stream opened on purpose by the address epilogue (c18addr.go)
+	}
 	s.sc.rec.Struct("app.accept", "s", s.idx, "id", fmt.Sprintf("S%d", s.idx), "addr", addrString(conn.RemoteAddr()), "nth", int(n))
 	if n > 1 || s.plan.Bad != "" {
 		// a second connection for the session, or one for a session that never
@@ -381,6 +499,8 @@ type session struct {
 	conv    uint32
 	convSet int32
 	convFixed bool
+	kconv   uint32        // conversation id of the client's KCP session (core rig)
+	pconns  []interface{} // packet conns handed to the redial layer (core rig)
 	failed  int32 // an application read/write returned an error: the scenario cannot complete any more
 	paused  int32 // writers in their planned pause
 
@@ -733,7 +853,12 @@ func (s *session) dialContext(ctx context.Context) (net.PacketConn, error) {
 		s.cur = c
 		s.cmu.Unlock()
 		go c.staleness(sr.stale, func() bool { return s.complete() || atomic.LoadInt32(&s.paused) > 0 })
-		return &encapConn{c: c}, nil
+		ec := &encapConn{c: c}
+		sr.rig.byPConn.Store(net.PacketConn(ec), s)
+		s.cmu.Lock()
+		s.pconns = append(s.pconns, net.PacketConn(ec))
+		s.cmu.Unlock()
+		return ec, nil
 	}
 }
 
@@ -806,7 +931,23 @@ func (s *session) readStream(r net.Conn, dir string, total int64) {
 	var off int64
 	buf := make([]byte, 64*1024)
 	want := make([]byte, 64*1024)
+	var stalls []ReadStall
+	for _, st := range s.plan.ReadStalls {
+		if st.Dir == dir {
+			stalls = append(stalls, st)
+		}
+	}
 	for off < total {
+		if len(stalls) > 0 && off >= stalls[0].At {
+			st := stalls[0]
+			stalls = stalls[1:]
+			s.sc.rec.Struct("app.stall", "s", s.idx, "d", dir, "off", int(off), "ms", st.Ms)
+			select {
+			case <-time.After(time.Duration(st.Ms) * time.Millisecond):
+			case <-s.sc.endCh:
+			}
+			s.sc.rec.Struct("app.resume", "s", s.idx, "d", dir, "off", int(off))
+		}
 		n, err := r.Read(buf)
 		if n > 0 {
 			ok := true
@@ -887,6 +1028,7 @@ func (s *session) start() error {
 	conn.SetWindowSize(65535, 65535)
 	conn.SetNoDelay(0, 0, 0, 1)
 	s.kconn = conn
+	s.kconv = conn.GetConv()
 	if prev, loaded := s.sc.rig.byConv.LoadOrStore(conn.GetConv(), s); loaded && prev.(*session) != s {
 		// two sessions with the same conversation id: packets can no longer be
 		// attributed by content
@@ -974,6 +1116,17 @@ func (s *session) forget() {
 	if atomic.LoadInt32(&s.convSet) != 0 {
 		s.sc.rig.byConv.Delete(s.conv)
 	}
+	for _, c := range []uint32{s.conv, s.kconv} {
+		if c != 0 {
+			s.sc.rig.wroteUp.Delete(c)
+			s.sc.rig.wroteDown.Delete(c)
+		}
+	}
+	s.cmu.Lock()
+	for _, pc := range s.pconns {
+		s.sc.rig.byPConn.Delete(pc)
+	}
+	s.cmu.Unlock()
 }
 
 // flood attaches n throw-away carriers, each presenting the token and a
@@ -1219,6 +1372,7 @@ func (r *Rig) Run(sc *Scenario, index int) *Result {
 		case <-time.After(8 * time.Second):
 			sr.rec.Note("extras still running at the end")
 		}
+		sr.addrEpilogue()
 	}
 	if res.Stalled {
 		st := ""
